@@ -271,3 +271,696 @@ theorem tamper_signature (sg sg' : SigV) (v : Verifier) (hu : Unique v)
   exact ⟨h1, h2, by rw [hpay, hpay', h4], h3⟩
 
 end C03
+
+namespace C10
+open C02 C03
+
+/-- a full-form Countersign_structure never equals an abbreviated-form one, whatever the parents,
+    protected buckets and external data on the two sides (the context strings differ, or the
+    array lengths do) -/
+theorem ctbsBytes_full_ne_abbrev_any (o o' : Option Bytes) (bp sp ext bp' sp' ext' : Bytes)
+    (pl pl' : Option Bytes) :
+    ctbsBytes false o bp sp ext pl ≠ ctbsBytes true o' bp' sp' ext' pl' := by
+  intro h
+  cases o <;> cases o' <;>
+    simp only [ctbsBytes, ctxOf, encHead_4_5, encHead_4_6, encTstr_ctxCounterSignature,
+      encTstr_ctxCounterSignature0, encTstr_ctxCounterSignatureV2, encTstr_ctxCounterSignature0V2,
+      List.cons_append, List.nil_append] at h <;>
+    first
+      | exact absurd (List.cons.inj h).1 (by decide)
+      | exact absurd (List.cons.inj (List.cons.inj h).2).1 (by decide)
+
+theorem ctbs_full_ne_abbrev_any (parent parent' : Parent) (sp sp' : Bytes) (ext ext' : Option Bytes)
+    (t t' : Bytes) (h : countersignToBeSigned false parent sp ext = .ok t)
+    (h' : countersignToBeSigned true parent' sp' ext' = .ok t') : t ≠ t' := by
+  obtain ⟨o, pl, bp, s1, hall⟩ := ctbs_ok_shape h
+  obtain ⟨o', pl', bp', s1', hall'⟩ := ctbs_ok_shape h'
+  rw [hall false] at h
+  rw [hall' true] at h'
+  rw [← Out.ok.inj h, ← Out.ok.inj h']
+  exact ctbsBytes_full_ne_abbrev_any _ _ _ _ _ _ _ _ _ _
+
+/-- whenever `countersignToBeSigned` succeeds on a COSE_Sign1 parent, the result is the RFC 9338
+    Countersign_structure (V2 form: the parent's signature is in `other_fields`) -/
+theorem ctbs_sign1_ok_inv {abbr : Bool} {m : Sign1Msg} {sp : Bytes} {ext : Option Bytes} {t : Bytes}
+    (h : countersignToBeSigned abbr (.sign1 m) sp ext = .ok t) :
+    ∃ raw bc sc pl sig, marshalProtected m.h = .ok raw ∧ IsBstrEncoding raw bc ∧
+      IsBstrEncoding sp sc ∧ m.payload = some pl ∧ m.sig = some sig ∧ sig ≠ [] ∧
+      t = detEnc (countersignStructure (if abbr then "CounterSignature0V2" else "CounterSignatureV2")
+        bc sc (ext.getD []) pl (some sig)) := by
+  have h0 := h
+  simp only [countersignToBeSigned] at h
+  by_cases hz : blen m.sig = 0
+  · simp [hz] at h
+  · cases hP : marshalProtected m.h with
+    | ok raw =>
+      cases hpl : m.payload with
+      | none => simp [hz, hP, hpl] at h
+      | some pl =>
+        cases hb : detBstr raw with
+        | ok bp =>
+          cases hs : detBstr sp with
+          | ok sp' =>
+            obtain ⟨bc, hbc, hbl, -⟩ := detBstr_ok_inv _ _ hb
+            obtain ⟨sc, hsc, hsl, -⟩ := detBstr_ok_inv _ _ hs
+            cases hsg : m.sig with
+            | none => simp [blen, hsg] at hz
+            | some sig =>
+              have hne : sig ≠ [] := by
+                intro hc; rw [hsg, hc] at hz; exact hz rfl
+              refine ⟨raw, bc, sc, pl, sig, rfl, hbc, hsc, rfl, rfl, hne, ?_⟩
+              have := ctbs_eq_rfc_sign1 abbr m sp ext raw bc sc pl sig hP hbc hsc hbl hsl hpl hsg hne
+              rw [h0] at this
+              exact Out.ok.inj this
+          | err e => simp [hz, hP, hpl, hb, hs] at h
+          | panic => simp [hz, hP, hpl, hb, hs] at h
+          | unmodelled => simp [hz, hP, hpl, hb, hs] at h
+        | err e => simp [hz, hP, hpl, hb] at h
+        | panic => simp [hz, hP, hpl, hb] at h
+        | unmodelled => simp [hz, hP, hpl, hb] at h
+    | err e => simp [hz, hP] at h
+    | panic => simp [hz, hP] at h
+    | unmodelled => simp [hz, hP] at h
+
+theorem ctxV2_len : (utf8 "CounterSignatureV2").length < 2^64 := by
+  show ctxCounterSignatureV2.length < 2^64
+  rw [ctxCounterSignatureV2_bytes]; decide
+
+/-- 4 (general form). Two countersignature values carrying the same signature bytes verify, under
+    a unique verifier, against COSE_Sign1 parents `m`, `m'` with external data `ext`, `ext'`.
+    Then the parents' protected content, payloads and signatures, the external data and the
+    countersigners' protected content all coincide. -/
+theorem csig_binds_all (cs cs' : SigV) (v : Verifier) (hu : Unique v) (m m' : Sign1Msg)
+    (ext ext' : Option Bytes) (hsig : cs.sig = cs'.sig)
+    (h1 : (Countersignature.verify cs v (.sign1 m) ext).1 = .ok ())
+    (h2 : (Countersignature.verify cs' v (.sign1 m') ext').1 = .ok ())
+    (c c' raw raw' : Bytes)
+    (hp : marshalProtected m.h = .ok raw) (hp' : marshalProtected m'.h = .ok raw')
+    (hc : IsBstrEncoding raw c) (hc' : IsBstrEncoding raw' c')
+    (hpl : blen m.payload < 2^64) (hpl' : blen m'.payload < 2^64)
+    (hsl : blen m.sig < 2^64) (hsl' : blen m'.sig < 2^64)
+    (he : blen ext < 2^64) (he' : blen ext' < 2^64) :
+    c = c' ∧ m.payload = m'.payload ∧ m.sig = m'.sig ∧ ext.getD [] = ext'.getD [] ∧
+    ∀ sraw sraw' sc sc', marshalProtected cs.h = .ok sraw → marshalProtected cs'.h = .ok sraw' →
+      IsBstrEncoding sraw sc → IsBstrEncoding sraw' sc' → sc = sc' := by
+  obtain ⟨-, -, t, ht, hv⟩ := (verifyCsig_iff cs v _ ext).mp h1
+  obtain ⟨-, -, t', ht', hv'⟩ := (verifyCsig_iff cs' v _ ext').mp h2
+  obtain ⟨sp, hsp, hct⟩ := ctbs_of_ok ht
+  obtain ⟨sp', hsp', hct'⟩ := ctbs_of_ok ht'
+  obtain ⟨r, bc, sc, pl, sig, hr, hbc, hsc, hpay, hsg, -, rfl⟩ := ctbs_sign1_ok_inv hct
+  obtain ⟨r', bc', sc', pl', sig', hr', hbc', hsc', hpay', hsg', -, rfl⟩ := ctbs_sign1_ok_inv hct'
+  rw [hp] at hr; cases hr
+  rw [hp'] at hr'; cases hr'
+  cases isBstrEncoding_content_unique hc hbc
+  cases isBstrEncoding_content_unique hc' hbc'
+  rw [← hsig] at hv'
+  have hteq := hu _ _ _ hv hv'
+  have l1 := isBstrEncoding_length hc
+  have l2 := isBstrEncoding_length hc'
+  have l3 := isBstrEncoding_length hsc
+  have l4 := isBstrEncoding_length hsc'
+  simp only [blen, hpay, hpay', hsg, hsg', Option.getD_some] at hpl hpl' hsl hsl' he he'
+  simp only [Bool.false_eq_true, if_false] at hteq
+  obtain ⟨-, a1, a2, a3, a4, a5⟩ := countersign_binding _ _ c sc (ext.getD []) pl c' sc'
+    (ext'.getD []) pl' (some sig) (some sig') ctxV2_len ctxV2_len (by omega) (by omega) he hpl
+    (by omega) (by omega) he' hpl'
+    (by intro x hx; cases hx; exact hsl) (by intro x hx; cases hx; exact hsl') hteq
+  refine ⟨a1, by rw [hpay, hpay', a4], by rw [hsg, hsg', Option.some.inj a5], a3, ?_⟩
+  intro sraw sraw' s1 s1' e1 e1' i1 i1'
+  rw [hsp] at e1; cases e1
+  rw [hsp'] at e1'; cases e1'
+  rw [isBstrEncoding_content_unique i1 hsc, isBstrEncoding_content_unique i1' hsc']
+  exact a2
+
+/-- 4. one countersignature value (fixed headers and signature bytes) that verifies against two
+    COSE_Sign1 parents: the parents agree on protected content, payload and signature, and the
+    external data agree -/
+theorem csig_binds_parent (cs : SigV) (v : Verifier) (hu : Unique v) (m m' : Sign1Msg)
+    (ext ext' : Option Bytes)
+    (h1 : (Countersignature.verify cs v (.sign1 m) ext).1 = .ok ())
+    (h2 : (Countersignature.verify cs v (.sign1 m') ext').1 = .ok ())
+    (c c' raw raw' : Bytes)
+    (hp : marshalProtected m.h = .ok raw) (hp' : marshalProtected m'.h = .ok raw')
+    (hc : IsBstrEncoding raw c) (hc' : IsBstrEncoding raw' c')
+    (hpl : blen m.payload < 2^64) (hpl' : blen m'.payload < 2^64)
+    (hsl : blen m.sig < 2^64) (hsl' : blen m'.sig < 2^64)
+    (he : blen ext < 2^64) (he' : blen ext' < 2^64) :
+    c = c' ∧ m.payload = m'.payload ∧ m.sig = m'.sig ∧ ext.getD [] = ext'.getD [] := by
+  obtain ⟨a, b, d, e, -⟩ := csig_binds_all cs cs v hu m m' ext ext' rfl h1 h2 c c' raw raw' hp hp'
+    hc hc' hpl hpl' hsl hsl' he he'
+  exact ⟨a, b, d, e⟩
+
+/-- the signature bytes of a verifying full countersignature never verify through
+    `VerifyCountersign0` — for the same parent or any other, any external data -/
+theorem csig_full_not_abbrev (cs : SigV) (v : Verifier) (hu : Unique v) (parent parent' : Parent)
+    (ext ext' : Option Bytes) (h1 : (Countersignature.verify cs v parent ext).1 = .ok ()) :
+    (verifyCountersign0 v parent' ext' (cs.sig.getD [])).1 ≠ .ok () := by
+  intro h2
+  obtain ⟨-, -, t, ht, hv⟩ := (verifyCsig_iff cs v parent ext).mp h1
+  obtain ⟨sp, -, hct⟩ := ctbs_of_ok ht
+  obtain ⟨t', hct', hv'⟩ := (verifyCsign0_iff v parent' ext' _).mp h2
+  exact ctbs_full_ne_abbrev_any parent parent' sp _ ext ext' t t' hct hct' (hu _ _ _ hv hv')
+
+/-- and conversely: an abbreviated countersignature never verifies as a full one -/
+theorem csig_abbrev_not_full (cs : SigV) (v : Verifier) (hu : Unique v) (parent parent' : Parent)
+    (ext ext' : Option Bytes)
+    (h1 : (verifyCountersign0 v parent ext (cs.sig.getD [])).1 = .ok ()) :
+    (Countersignature.verify cs v parent' ext').1 ≠ .ok () :=
+  fun h2 => csig_full_not_abbrev cs v hu parent' parent ext' ext h2 h1
+
+end C10
+
+namespace C04
+
+/-! The other structures go through the same two functions `ensureSigningAlgorithm` /
+    `ensureVerificationAlgorithm` as COSE_Sign1, before ToBeSigned is built and before the key is
+    used: every call of the key implies the gate had passed. -/
+
+theorem signature_call_implies_gate (sg : SigV) (s : Signer) (bprot : Bytes)
+    (payload ext : Option Bytes) (h : (Signature.sign sg s bprot payload ext).calls ≠ []) :
+    ∃ p', ensureSigningAlgorithm sg.h.rawP sg.h.p s.alg ext = .ok p' := by
+  unfold Signature.sign at h
+  by_cases hp : payload.isNone
+  · simp [hp] at h
+  · by_cases hs : blen sg.sig > 0
+    · simp [hp, hs] at h
+    · by_cases hb : bodyProtOK bprot
+      · simp only [hp, hs, hb, if_false, Bool.not_true, Bool.false_eq_true] at h
+        cases hg : ensureSigningAlgorithm sg.h.rawP sg.h.p s.alg ext with
+        | ok p' => exact ⟨p', rfl⟩
+        | err e => simp [hg] at h
+        | panic => simp [hg] at h
+        | unmodelled => simp [hg] at h
+      · simp [hp, hs, hb] at h
+
+theorem signature_verify_call_implies_gate (sg : SigV) (v : Verifier) (bprot : Bytes)
+    (payload ext : Option Bytes) (h : (Signature.verify sg v bprot payload ext).2 ≠ []) :
+    ensureVerificationAlgorithm sg.h.p v.alg ext = .ok () := by
+  unfold Signature.verify at h
+  by_cases hp : payload.isNone
+  · simp [hp] at h
+  · by_cases hs : blen sg.sig = 0
+    · simp [hp, hs] at h
+    · by_cases hb : bodyProtOK bprot
+      · simp only [hp, hs, hb, if_false, Bool.not_true, Bool.false_eq_true] at h
+        cases hg : ensureVerificationAlgorithm sg.h.p v.alg ext with
+        | ok u => cases u; rfl
+        | err e => simp [hg] at h
+        | panic => simp [hg] at h
+        | unmodelled => simp [hg] at h
+      · simp [hp, hs, hb] at h
+
+theorem countersignature_call_implies_gate (cs : SigV) (s : Signer) (parent : Parent)
+    (ext : Option Bytes) (h : (Countersignature.sign cs s parent ext).calls ≠ []) :
+    ∃ p', ensureSigningAlgorithm cs.h.rawP cs.h.p s.alg ext = .ok p' := by
+  unfold Countersignature.sign at h
+  by_cases hs : blen cs.sig > 0
+  · simp [hs] at h
+  · simp only [hs, if_false] at h
+    cases hg : ensureSigningAlgorithm cs.h.rawP cs.h.p s.alg ext with
+    | ok p' => exact ⟨p', rfl⟩
+    | err e => simp [hg] at h
+    | panic => simp [hg] at h
+    | unmodelled => simp [hg] at h
+
+theorem countersignature_verify_call_implies_gate (cs : SigV) (v : Verifier) (parent : Parent)
+    (ext : Option Bytes) (h : (Countersignature.verify cs v parent ext).2 ≠ []) :
+    ensureVerificationAlgorithm cs.h.p v.alg ext = .ok () := by
+  unfold Countersignature.verify at h
+  by_cases hs : blen cs.sig = 0
+  · simp [hs] at h
+  · simp only [hs, if_false] at h
+    cases hg : ensureVerificationAlgorithm cs.h.p v.alg ext with
+    | ok u => cases u; rfl
+    | err e => simp [hg] at h
+    | panic => simp [hg] at h
+    | unmodelled => simp [hg] at h
+
+/-- 5a. COSE_Signature, signing: with an integer alg different from the signer's, the mismatch
+    error is returned, the key is never invoked and the slot is left untouched -/
+theorem signature_mismatch_no_call (sg : SigV) (s : Signer) (bprot : Bytes)
+    (payload ext : Option Bytes) (c : Int)
+    (hp : payload.isSome) (hs : blen sg.sig = 0) (hb : bodyProtOK bprot = true)
+    (h : algorithmOf sg.h.p = .found c) (hne : c ≠ s.alg) :
+    (Signature.sign sg s bprot payload ext).out = .err .algMismatch ∧
+    (Signature.sign sg s bprot payload ext).calls = [] ∧
+    (Signature.sign sg s bprot payload ext).state = sg := by
+  have hp' : payload.isNone = false := by cases payload <;> simp_all
+  simp [Signature.sign, hp', hs, hb, sign_mismatch _ _ _ _ _ h hne]
+
+/-- 5a'. COSE_Signature, verification: the verifier is never invoked and the result is not
+    success (no preconditions); it is the mismatch error when the argument checks pass -/
+theorem signature_verify_mismatch_no_call (sg : SigV) (v : Verifier) (bprot : Bytes)
+    (payload ext : Option Bytes) (c : Int)
+    (h : algorithmOf sg.h.p = .found c) (hne : c ≠ v.alg) :
+    (Signature.verify sg v bprot payload ext).2 = [] ∧
+    (Signature.verify sg v bprot payload ext).1 ≠ .ok () ∧
+    (payload.isSome → blen sg.sig ≠ 0 → bodyProtOK bprot = true →
+      (Signature.verify sg v bprot payload ext).1 = .err .algMismatch) := by
+  have hg := verify_mismatch _ _ _ ext h hne
+  refine ⟨?_, ?_, ?_⟩
+  · apply Classical.byContradiction
+    intro hc
+    have := signature_verify_call_implies_gate sg v bprot payload ext hc
+    rw [hg] at this; cases this
+  · intro hc
+    have := ((C03.verifySig_iff sg v bprot payload ext).mp hc).2.2.2.1
+    rw [hg] at this; cases this
+  · intro hp hs hb
+    have hp' : payload.isNone = false := by cases payload <;> simp_all
+    simp [Signature.verify, hp', hs, hb, hg]
+
+/-- 5b. countersignature, signing -/
+theorem countersignature_mismatch_no_call (cs : SigV) (s : Signer) (parent : Parent)
+    (ext : Option Bytes) (c : Int) (hs : blen cs.sig = 0)
+    (h : algorithmOf cs.h.p = .found c) (hne : c ≠ s.alg) :
+    (Countersignature.sign cs s parent ext).out = .err .algMismatch ∧
+    (Countersignature.sign cs s parent ext).calls = [] ∧
+    (Countersignature.sign cs s parent ext).state = cs := by
+  simp [Countersignature.sign, hs, sign_mismatch _ _ _ _ _ h hne]
+
+/-- 5b'. countersignature, verification -/
+theorem countersignature_verify_mismatch_no_call (cs : SigV) (v : Verifier) (parent : Parent)
+    (ext : Option Bytes) (c : Int)
+    (h : algorithmOf cs.h.p = .found c) (hne : c ≠ v.alg) :
+    (Countersignature.verify cs v parent ext).2 = [] ∧
+    (Countersignature.verify cs v parent ext).1 ≠ .ok () ∧
+    (blen cs.sig ≠ 0 → (Countersignature.verify cs v parent ext).1 = .err .algMismatch) := by
+  have hg := verify_mismatch _ _ _ ext h hne
+  refine ⟨?_, ?_, ?_⟩
+  · apply Classical.byContradiction
+    intro hc
+    have := countersignature_verify_call_implies_gate cs v parent ext hc
+    rw [hg] at this; cases this
+  · intro hc
+    have := ((C03.verifyCsig_iff cs v parent ext).mp hc).2.1
+    rw [hg] at this; cases this
+  · intro hs
+    simp [Countersignature.verify, hs, hg]
+
+/-- 5c. `SignHashEnvelope`: the emitted bytes are the serialisation of a COSE_Sign1 state whose
+    protected map passes the verification gate for the signer's algorithm — with no external
+    data this means the alg found in the emitted protected map is the signer's -/
+theorem henv_alg_gate (s : Signer) (h : Hdrs) (p : HashPayload) (b : Bytes)
+    (hs : (signHashEnvelope s h p).1 = .ok b) :
+    ∃ u st, st = (Sign1.sign { h := { h with p := setHashEnvelopeProtectedHeader h.p p,
+                                              rawP := none, u := u },
+                               payload := p.value, sig := none } none s).state ∧
+      Sign1.marshal true st = .ok b ∧
+      ensureVerificationAlgorithm st.h.p s.alg none = .ok () ∧
+      algorithmOf st.h.p = .found s.alg := by
+  obtain ⟨u, -, -, hh⟩ := C01.signHashEnvelope_ok_inv s h p b hs
+  obtain ⟨hok, hm⟩ := C01.sign1Helper_ok_inv true _ _ _ s b hh
+  obtain ⟨p', tbs, sig, -, hgate, -, -, hst⟩ := C01.sign1_sign_ok_inv _ none s hok
+  have hv := C01.gate_after_sign _ _ _ _ _ hgate (C01.algorithmOf_set _ _)
+  refine ⟨u, _, rfl, hm, ?_, ?_⟩
+  · rw [hst]; exact hv
+  · rw [hst]
+    rcases (verify_gate_iff _ _ _).mp hv with hf | ⟨-, hl⟩
+    · exact hf
+    · simp at hl
+
+end C04
+
+namespace C20
+
+/-- Sign1, the precise outcome: once the signer was reached, its error is what is returned -/
+theorem sign1_fault_err (m : Sign1Msg) (ext : Option Bytes) (s : Signer) (e : Err)
+    (hs : ∀ tbs, s.sign tbs = .err e) (hc : (Sign1.sign m ext s).calls ≠ []) :
+    (Sign1.sign m ext s).out = .err e := by
+  unfold Sign1.sign at hc ⊢
+  by_cases hp : m.payload.isNone
+  · simp [hp] at hc
+  · by_cases hg : blen m.sig > 0
+    · simp [hp, hg] at hc
+    · simp only [hp, hg, if_false, Bool.false_eq_true] at hc ⊢
+      cases hgate : ensureSigningAlgorithm m.h.rawP m.h.p s.alg ext with
+      | ok p' =>
+        simp only [hgate] at hc ⊢
+        cases ht : Sign1.toBeSigned { m with h := { m.h with p := p' } } ext with
+        | ok tbs => simp [hs tbs]
+        | err e' => simp [ht] at hc
+        | panic => simp [ht] at hc
+        | unmodelled => simp [ht] at hc
+      | err e' => simp [hgate] at hc
+      | panic => simp [hgate] at hc
+      | unmodelled => simp [hgate] at hc
+
+/-- 6a. COSE_Signature with a failing signer: never success; the signer's error once the signer
+    was reached; no signature stored -/
+theorem signature_fault (sg : SigV) (s : Signer) (bprot : Bytes) (payload ext : Option Bytes)
+    (e : Err) (hs : ∀ tbs, s.sign tbs = .err e) :
+    (Signature.sign sg s bprot payload ext).out ≠ .ok () ∧
+    ((Signature.sign sg s bprot payload ext).calls ≠ [] →
+      (Signature.sign sg s bprot payload ext).out = .err e) ∧
+    (Signature.sign sg s bprot payload ext).state.sig = sg.sig := by
+  have key : (Signature.sign sg s bprot payload ext).out ≠ .ok () ∧
+      ((Signature.sign sg s bprot payload ext).calls ≠ [] →
+        (Signature.sign sg s bprot payload ext).out = .err e) := by
+    unfold Signature.sign
+    by_cases hp : payload.isNone
+    · simp [hp]
+    · by_cases hg : blen sg.sig > 0
+      · simp [hp, hg]
+      · by_cases hb : bodyProtOK bprot
+        · simp only [hp, hg, hb, if_false, Bool.false_eq_true, Bool.not_true]
+          cases ensureSigningAlgorithm sg.h.rawP sg.h.p s.alg ext with
+          | ok p' =>
+            simp only []
+            cases Signature.toBeSigned { sg with h := { sg.h with p := p' } } bprot payload ext with
+            | ok tbs => simp [hs tbs]
+            | err e' => simp
+            | panic => simp
+            | unmodelled => simp
+          | err e' => simp
+          | panic => simp
+          | unmodelled => simp
+        · simp [hp, hg, hb]
+  exact ⟨key.1, key.2, signature_sign_fail_keeps_sig sg s bprot payload ext key.1⟩
+
+/-- 6b. full countersignature with a failing signer -/
+theorem countersignature_fault (cs : SigV) (s : Signer) (parent : Parent) (ext : Option Bytes)
+    (e : Err) (hs : ∀ tbs, s.sign tbs = .err e) :
+    (Countersignature.sign cs s parent ext).out ≠ .ok () ∧
+    ((Countersignature.sign cs s parent ext).calls ≠ [] →
+      (Countersignature.sign cs s parent ext).out = .err e) ∧
+    (Countersignature.sign cs s parent ext).state.sig = cs.sig := by
+  unfold Countersignature.sign
+  by_cases hg : blen cs.sig > 0
+  · simp [hg]
+  · simp only [hg, if_false]
+    cases ensureSigningAlgorithm cs.h.rawP cs.h.p s.alg ext with
+    | ok p' =>
+      simp only []
+      cases Countersignature.toBeSigned { cs with h := { cs.h with p := p' } } parent ext with
+      | ok tbs => simp [hs tbs]
+      | err e' => simp
+      | panic => simp
+      | unmodelled => simp
+    | err e' => simp
+    | panic => simp
+    | unmodelled => simp
+
+/-- 6c. `Countersign0` with a failing signer: no bytes are returned; the signer's error once the
+    signer was reached -/
+theorem countersign0_fault (s : Signer) (parent : Parent) (ext : Option Bytes)
+    (e : Err) (hs : ∀ tbs, s.sign tbs = .err e) :
+    (∀ b, (countersign0 s parent ext).1 ≠ .ok b) ∧
+    ((countersign0 s parent ext).2 ≠ [] → (countersign0 s parent ext).1 = .err e) := by
+  unfold countersign0
+  cases countersignToBeSigned true parent [0x40] ext with
+  | ok tbs => simp [hs tbs]
+  | err e' => simp
+  | panic => simp
+  | unmodelled => simp
+
+/-- 6d. the `Sign1` / `Sign1Untagged` helpers with a failing signer -/
+theorem sign1Helper_fault (tagged : Bool) (h : Hdrs) (payload ext : Option Bytes) (s : Signer)
+    (e : Err) (hs : ∀ tbs, s.sign tbs = .err e) :
+    (∀ b, (sign1Helper tagged h payload ext s).1 ≠ .ok b) ∧
+    ((sign1Helper tagged h payload ext s).2 ≠ [] →
+      (sign1Helper tagged h payload ext s).1 = .err e) := by
+  have h1 := (sign1_fault { h := h, payload := payload, sig := none } ext s e hs).1
+  have h2 := sign1_fault_err { h := h, payload := payload, sig := none } ext s e hs
+  unfold sign1Helper
+  cases ho : (Sign1.sign { h := h, payload := payload, sig := none } ext s).out with
+  | ok u => cases u; exact absurd ho h1
+  | err e' =>
+    simp only [ho] at h2 ⊢
+    exact ⟨fun b hc => (nomatch hc), fun hc => by cases h2 hc; rfl⟩
+  | panic =>
+    simp only [ho] at h2 ⊢
+    exact ⟨fun b hc => (nomatch hc), fun hc => (nomatch h2 hc)⟩
+  | unmodelled =>
+    simp only [ho] at h2 ⊢
+    exact ⟨fun b hc => (nomatch hc), fun hc => (nomatch h2 hc)⟩
+
+/-- `SignHashEnvelope` either stops before signing (no call, not ok) or is the `Sign1` helper on
+    the amended headers -/
+theorem signHashEnvelope_cases (s : Signer) (h : Hdrs) (p : HashPayload) :
+    (∃ x, signHashEnvelope s h p = (x, []) ∧ ∀ b, x ≠ .ok b) ∨
+    ∃ u, signHashEnvelope s h p =
+      sign1Helper true { h with p := setHashEnvelopeProtectedHeader h.p p, rawP := none, u := u }
+        p.value none s := by
+  unfold signHashEnvelope
+  split
+  · exact .inl ⟨_, rfl, fun b hc => nomatch hc⟩
+  · dsimp only
+    split
+    · split
+      · exact .inl ⟨_, rfl, fun b hc => nomatch hc⟩
+      · exact .inr ⟨_, rfl⟩
+    · exact .inl ⟨_, rfl, fun b hc => nomatch hc⟩
+    · exact .inl ⟨_, rfl, fun b hc => nomatch hc⟩
+    · exact .inl ⟨_, rfl, fun b hc => nomatch hc⟩
+
+/-- 6d'. `SignHashEnvelope` with a failing signer -/
+theorem henv_fault (s : Signer) (h : Hdrs) (p : HashPayload)
+    (e : Err) (hs : ∀ tbs, s.sign tbs = .err e) :
+    (∀ b, (signHashEnvelope s h p).1 ≠ .ok b) ∧
+    ((signHashEnvelope s h p).2 ≠ [] → (signHashEnvelope s h p).1 = .err e) := by
+  rcases signHashEnvelope_cases s h p with ⟨x, hx, hne⟩ | ⟨u, hu⟩
+  · rw [hx]; exact ⟨hne, fun hc => absurd rfl hc⟩
+  · rw [hu]; exact sign1Helper_fault true _ _ _ s e hs
+
+/-! ### verifier errors -/
+
+/-- whatever the verifier returns for the single (content, signature) pair it is handed is the
+    result; if it is handed nothing, the result is not success -/
+theorem verifySig_calls (sg : SigV) (v : Verifier) (bprot : Bytes) (payload ext : Option Bytes) :
+    ((Signature.verify sg v bprot payload ext).2 = [] ∧
+      (Signature.verify sg v bprot payload ext).1 ≠ .ok ()) ∨
+    ∃ t, (Signature.verify sg v bprot payload ext).2 = [t] ∧
+      (Signature.verify sg v bprot payload ext).1 = v.verify t (sg.sig.getD []) := by
+  unfold Signature.verify
+  by_cases hp : payload.isNone
+  · simp [hp]
+  · by_cases hs : blen sg.sig = 0
+    · simp [hp, hs]
+    · by_cases hb : bodyProtOK bprot
+      · simp only [hp, hs, hb, if_false, Bool.false_eq_true, Bool.not_true]
+        cases ensureVerificationAlgorithm sg.h.p v.alg ext with
+        | ok u =>
+          simp only []
+          cases Signature.toBeSigned sg bprot payload ext with
+          | ok t => simp
+          | err e => simp
+          | panic => simp
+          | unmodelled => simp
+        | err e => simp
+        | panic => simp
+        | unmodelled => simp
+      · simp [hp, hs, hb]
+
+theorem verifyCsig_calls (cs : SigV) (v : Verifier) (parent : Parent) (ext : Option Bytes) :
+    ((Countersignature.verify cs v parent ext).2 = [] ∧
+      (Countersignature.verify cs v parent ext).1 ≠ .ok ()) ∨
+    ∃ t, (Countersignature.verify cs v parent ext).2 = [t] ∧
+      (Countersignature.verify cs v parent ext).1 = v.verify t (cs.sig.getD []) := by
+  unfold Countersignature.verify
+  by_cases hs : blen cs.sig = 0
+  · simp [hs]
+  · simp only [hs, if_false]
+    cases ensureVerificationAlgorithm cs.h.p v.alg ext with
+    | ok u =>
+      simp only []
+      cases Countersignature.toBeSigned cs parent ext with
+      | ok t => simp
+      | err e => simp
+      | panic => simp
+      | unmodelled => simp
+    | err e => simp
+    | panic => simp
+    | unmodelled => simp
+
+theorem verifyCsign0_calls (v : Verifier) (parent : Parent) (ext : Option Bytes) (sig : Bytes) :
+    ((verifyCountersign0 v parent ext sig).2 = [] ∧
+      (verifyCountersign0 v parent ext sig).1 ≠ .ok ()) ∨
+    ∃ t, (verifyCountersign0 v parent ext sig).2 = [t] ∧
+      (verifyCountersign0 v parent ext sig).1 = v.verify t sig := by
+  unfold verifyCountersign0
+  cases countersignToBeSigned true parent [0x40] ext with
+  | ok t => simp
+  | err e => simp
+  | panic => simp
+  | unmodelled => simp
+
+/-- 6e. a verifier that returns `.err e` for every input: no entry point reports success, and
+    each reports exactly `.err e` once the verifier was reached -/
+theorem verify_error_propagates_all (v : Verifier) (e : Err) (hv : ∀ t s, v.verify t s = .err e) :
+    (∀ sg bprot payload ext,
+      (Signature.verify sg v bprot payload ext).1 ≠ .ok () ∧
+      ((Signature.verify sg v bprot payload ext).2 ≠ [] →
+        (Signature.verify sg v bprot payload ext).1 = .err e)) ∧
+    (∀ cs parent ext,
+      (Countersignature.verify cs v parent ext).1 ≠ .ok () ∧
+      ((Countersignature.verify cs v parent ext).2 ≠ [] →
+        (Countersignature.verify cs v parent ext).1 = .err e)) ∧
+    (∀ parent ext sig,
+      (verifyCountersign0 v parent ext sig).1 ≠ .ok () ∧
+      ((verifyCountersign0 v parent ext sig).2 ≠ [] →
+        (verifyCountersign0 v parent ext sig).1 = .err e)) := by
+  refine ⟨fun sg bprot payload ext => ?_, fun cs parent ext => ?_, fun parent ext sig => ?_⟩
+  · rcases verifySig_calls sg v bprot payload ext with ⟨h1, h2⟩ | ⟨t, h1, h2⟩
+    · exact ⟨h2, fun hc => absurd h1 hc⟩
+    · rw [h2, hv]; exact ⟨fun hc => (nomatch hc), fun _ => rfl⟩
+  · rcases verifyCsig_calls cs v parent ext with ⟨h1, h2⟩ | ⟨t, h1, h2⟩
+    · exact ⟨h2, fun hc => absurd h1 hc⟩
+    · rw [h2, hv]; exact ⟨fun hc => (nomatch hc), fun _ => rfl⟩
+  · rcases verifyCsign0_calls v parent ext sig with ⟨h1, h2⟩ | ⟨t, h1, h2⟩
+    · exact ⟨h2, fun hc => absurd h1 hc⟩
+    · rw [h2, hv]; exact ⟨fun hc => (nomatch hc), fun _ => rfl⟩
+
+/-! ### COSE_Sign -/
+
+/-- when the signing loop reports a non-ok outcome there is a first failing index: every earlier
+    slot was signed, the slot itself failed, its outcome is the loop's outcome, later slots are
+    untouched, and the slot holds the state `Signature.sign` left -/
+theorem signLoop_not_ok_has_first_failure (bprot : Bytes) (payload ext : Option Bytes) :
+    ∀ (sgs : List SigV) (ss : List Signer),
+      (signLoop bprot payload ext sgs ss).2.1 ≠ .ok () →
+      ∃ (i : Nat) (h1 : i < sgs.length) (h2 : i < ss.length),
+        (∀ j (hj1 : j < sgs.length) (hj2 : j < ss.length), j < i →
+          (Signature.sign sgs[j] ss[j] bprot payload ext).out = .ok ()) ∧
+        (Signature.sign sgs[i] ss[i] bprot payload ext).out ≠ .ok () ∧
+        (signLoop bprot payload ext sgs ss).2.1 = (Signature.sign sgs[i] ss[i] bprot payload ext).out ∧
+        (signLoop bprot payload ext sgs ss).1.drop (i + 1) = sgs.drop (i + 1) ∧
+        (signLoop bprot payload ext sgs ss).1[i]? =
+          some (Signature.sign sgs[i] ss[i] bprot payload ext).state
+  | [], ss, h => by simp [signLoop] at h
+  | _ :: _, [], h => by simp [signLoop] at h
+  | sg :: sgs, s :: ss, h => by
+    by_cases ho : (Signature.sign sg s bprot payload ext).out = .ok ()
+    · have hrec : (signLoop bprot payload ext sgs ss).2.1 ≠ .ok () := by
+        intro hc
+        apply h
+        unfold signLoop
+        simp only [ho]
+        exact hc
+      obtain ⟨i, h1, h2, hbefore, hfail, -, -, hat⟩ :=
+        signLoop_not_ok_has_first_failure bprot payload ext sgs ss hrec
+      have hb' : ∀ j (hj1 : j < (sg :: sgs).length) (hj2 : j < (s :: ss).length), j < i + 1 →
+          (Signature.sign (sg :: sgs)[j] (s :: ss)[j] bprot payload ext).out = .ok () := by
+        intro j hj1 hj2 hlt
+        cases j with
+        | zero => simpa using ho
+        | succ k =>
+          simp only [List.getElem_cons_succ]
+          exact hbefore k (by simpa using hj1) (by simpa using hj2) (by omega)
+      have hi1 : i + 1 < (sg :: sgs).length := by simpa using h1
+      have hi2 : i + 1 < (s :: ss).length := by simpa using h2
+      have hf' : (Signature.sign (sg :: sgs)[i + 1] (s :: ss)[i + 1] bprot payload ext).out ≠ .ok () := by
+        simpa using hfail
+      have hff := signLoop_first_failure bprot payload ext (sg :: sgs) (s :: ss) (i + 1)
+        hi1 hi2 hb' hf'
+      refine ⟨i + 1, hi1, hi2, hb', hf', hff.1, hff.2, ?_⟩
+      unfold signLoop
+      simp only [ho, List.getElem_cons_succ]
+      simpa using hat
+    · have hb' : ∀ j (hj1 : j < (sg :: sgs).length) (hj2 : j < (s :: ss).length), j < 0 →
+          (Signature.sign (sg :: sgs)[j] (s :: ss)[j] bprot payload ext).out = .ok () := by
+        intro j _ _ hlt; omega
+      have hf' : (Signature.sign (sg :: sgs)[0] (s :: ss)[0] bprot payload ext).out ≠ .ok () := by
+        simpa using ho
+      have hff := signLoop_first_failure bprot payload ext (sg :: sgs) (s :: ss) 0
+        (by simp) (by simp) hb' hf'
+      refine ⟨0, by simp, by simp, hb', hf', hff.1, hff.2, ?_⟩
+      unfold signLoop
+      cases hq : (Signature.sign sg s bprot payload ext).out with
+      | ok u => cases u; exact absurd hq ho
+      | err e => simp [hq]
+      | panic => simp [hq]
+      | unmodelled => simp [hq]
+
+/-- a failed signing loop over unsigned slots leaves an unsigned slot -/
+theorem signLoop_not_ok_leaves_empty_slot (bprot : Bytes) (payload ext : Option Bytes)
+    (sgs : List SigV) (ss : List Signer)
+    (h : (signLoop bprot payload ext sgs ss).2.1 ≠ .ok ())
+    (h0 : ∀ s ∈ sgs, blen s.sig = 0) :
+    ∃ s ∈ (signLoop bprot payload ext sgs ss).1, blen s.sig = 0 := by
+  obtain ⟨i, h1, h2, -, hfail, -, -, hat⟩ :=
+    signLoop_not_ok_has_first_failure bprot payload ext sgs ss h
+  refine ⟨_, List.mem_of_getElem? hat, ?_⟩
+  rw [signature_sign_fail_keeps_sig _ _ _ _ _ hfail]
+  exact h0 _ (List.getElem_mem h1)
+
+/-- 6f. a COSE_Sign whose signing failed (starting from unsigned slots) cannot be serialised:
+    some slot is still empty.  (`m.sigs.length = signers.length` and `m.payload.isSome` are not
+    needed: when they fail nothing was signed at all.) -/
+theorem signmsg_fault_marshal (m : SignMsg) (ext : Option Bytes) (signers : List Signer)
+    (h : (Sign.sign m ext signers).out ≠ .ok ())
+    (h0 : ∀ s ∈ m.sigs, blen s.sig = 0) (hne : m.sigs ≠ []) :
+    ∀ b, Sign.marshal (Sign.sign m ext signers).state ≠ .ok b := by
+  have hm : ∃ s ∈ m.sigs, blen s.sig = 0 := by
+    cases hq : m.sigs with
+    | nil => exact absurd hq hne
+    | cons a r => exact ⟨a, by simp, h0 a (by simp [hq])⟩
+  suffices hx : ∃ s ∈ (Sign.sign m ext signers).state.sigs, blen s.sig = 0 by
+    obtain ⟨s, hs, hz⟩ := hx
+    exact C11.signmsg_no_empty_on_wire _ s hs hz
+  unfold Sign.sign at h ⊢
+  by_cases hp : m.payload.isNone
+  · simpa [hp] using hm
+  · by_cases he : m.sigs.isEmpty
+    · simpa [hp, he] using hm
+    · by_cases hl : m.sigs.length ≠ signers.length
+      · simpa [hp, he, hl] using hm
+      · simp only [hp, he, hl, if_false, Bool.false_eq_true] at h ⊢
+        cases hb : marshalProtected m.h with
+        | ok bprot =>
+          simp only [hb] at h ⊢
+          exact signLoop_not_ok_leaves_empty_slot bprot m.payload ext m.sigs signers h h0
+        | err e => simpa using hm
+        | panic => simpa using hm
+        | unmodelled => simpa using hm
+
+end C20
+
+/-! ### the hypotheses are satisfiable -/
+namespace TamperExamples
+open TbsExamples
+
+/-- the harness's transparent verifier with key id 7 -/
+def tv : Verifier :=
+  { alg := -7, verify := fun t sg => if sg = 1 :: 7 :: t then .ok () else .err .verification }
+
+theorem tv_unique : C03.Unique tv := C03.unique_transparent (-7) 7
+
+/-- `m1` (non-minimal protected bucket `58 01 a0`, payload 01 02 03) signed with the transparent
+    scheme over external data 01 -/
+def signed : Sign1Msg :=
+  { m1 with sig := some (1 :: 7 :: detEnc (sigStructure1 [0xa0] [1] [1, 2, 3])) }
+
+theorem signed_verifies : (Sign1.verify signed (some [1]) tv).1 = .ok () := by
+  rw [C03.verify1_iff]
+  refine ⟨rfl, by simp [signed, blen], by decide,
+    detEnc (sigStructure1 [0xa0] [1] [1, 2, 3]), ?_, ?_⟩
+  · exact C02.tbs1_eq_rfc signed (some [1]) [0x58, 0x01, 0xa0] [0xa0] [1, 2, 3] m1_protected
+      ⟨.w1, by decide, rfl⟩ (by decide) rfl
+  · simp [tv, signed]
+
+/-- the same signature bytes on a message with another payload are rejected -/
+example : (Sign1.verify { signed with payload := some [1, 2, 4] } (some [1]) tv).1 ≠ .ok () :=
+  C03.tamper_sign1_rejected signed _ (some [1]) (some [1]) tv tv_unique rfl signed_verifies
+    [0xa0] [0xa0] [0x58, 0x01, 0xa0] [0x58, 0x01, 0xa0] m1_protected m1_protected
+    ⟨.w1, by decide, rfl⟩ ⟨.w1, by decide, rfl⟩ (by decide) (by decide) (by decide) (by decide)
+    (.inr (.inl (by decide)))
+
+/-- … and so are they with other external data, or when offered as a COSE_Signature or as an
+    abbreviated countersignature -/
+example : (Sign1.verify signed (some [2]) tv).1 ≠ .ok () :=
+  C03.tamper_sign1_rejected signed signed (some [1]) (some [2]) tv tv_unique rfl signed_verifies
+    [0xa0] [0xa0] [0x58, 0x01, 0xa0] [0x58, 0x01, 0xa0] m1_protected m1_protected
+    ⟨.w1, by decide, rfl⟩ ⟨.w1, by decide, rfl⟩ (by decide) (by decide) (by decide) (by decide)
+    (.inr (.inr (by decide)))
+
+example (bprot : Bytes) (payload ext' : Option Bytes) :
+    (Signature.verify { sig := signed.sig } tv bprot payload ext').1 ≠ .ok () :=
+  C03.tamper_kind signed _ bprot payload (some [1]) ext' tv tv_unique rfl signed_verifies
+
+example (parent : Parent) (ext' : Option Bytes) :
+    (verifyCountersign0 tv parent ext' (1 :: 7 :: detEnc (sigStructure1 [0xa0] [1] [1, 2, 3]))).1
+      ≠ .ok () :=
+  (C03.tamper_kind_csig signed (some [1]) tv tv_unique signed_verifies).2 _ parent ext' rfl
+
+end TamperExamples
